@@ -6,7 +6,6 @@ import (
 	"fmt"
 	"time"
 
-	"github.com/hashicorp/go-raftchunking"
 	chunktypes "github.com/hashicorp/go-raftchunking/types"
 	"github.com/hashicorp/raft-wal/verifier"
 	"github.com/hashicorp/serf/coordinate"
@@ -14,18 +13,13 @@ import (
 	"google.golang.org/protobuf/types/known/anypb"
 	"google.golang.org/protobuf/types/known/timestamppb"
 
-	"github.com/hashicorp/consul/acl"
 	"github.com/hashicorp/consul/agent/consul/state"
 	"github.com/hashicorp/consul/agent/structs"
 	"github.com/hashicorp/consul/api"
 	"github.com/hashicorp/consul/proto-public/pbresource"
-	"github.com/hashicorp/consul/proto/private/pbcommon"
 	"github.com/hashicorp/consul/proto/private/pbpeering"
 	"github.com/hashicorp/consul/proto/private/pbstorage"
 )
-
-var _ = raftchunking.ChunkingSuccess{}
-var _ = pbcommon.Locality{}
 
 func init() {
 	reg("register", 22, genRegister, structs.RegisterRequestType)
@@ -289,7 +283,7 @@ func genConnectCA(g *fullGen) *built {
 	conf := func() *structs.CAConfiguration {
 		return &structs.CAConfiguration{ClusterID: "11111111-2222-3333-4444-555555555555", Provider: g.pick([]string{"consul", "vault"}),
 			Config: map[string]interface{}{"LeafCertTTL": g.pick([]string{"72h", "24h"}), "RotationPeriod": "2160h", "IntermediateCertTTL": "8760h"},
-			State: map[string]string{"k": g.pick([]string{"a", "b"})}}
+			State:  map[string]string{"k": g.pick([]string{"a", "b"})}}
 	}
 	roots := func() []*structs.CARoot {
 		n := 1 + g.rng.Intn(2)
@@ -395,7 +389,7 @@ func genACLPolicySet(g *fullGen) *built {
 	for n := 1 + g.rng.Intn(2); n > 0; n-- {
 		i := g.rng.Intn(len(polIDs))
 		p := &structs.ACLPolicy{ID: polIDs[i], Name: polNames[i], Description: g.pick([]string{"", "d1", "d2"}),
-			Rules: g.pick([]string{`key_prefix "" { policy = "read" }`, `service "web" { policy = "write" }`, `node_prefix "" { policy = "read" } operator = "read"`}),
+			Rules:       g.pick([]string{`key_prefix "" { policy = "read" }`, `service "web" { policy = "write" }`, `node_prefix "" { policy = "read" } operator = "read"`}),
 			Datacenters: g.subset(fDCs, 2)}
 		if g.chance(6) {
 			p.Name = g.pick(polNames) // possible name collision with another policy
@@ -471,8 +465,13 @@ func (g *fullGen) token(i int) *structs.ACLToken {
 		t.Roles = append(t.Roles, structs.ACLTokenRoleLink{ID: r})
 	}
 	if g.chance(5) {
-		// ACL.TokenSet resolves the TTL into an absolute expiry before the Raft apply
+		// ACL.TokenSet resolves the TTL into an absolute expiry before the Raft apply.  With -now-unix the
+		// expiry falls within the next minute of real time, so that replicas started at different moments
+		// apply the entry before and after it
 		e := g.now().Add(time.Hour)
+		if wallNow != 0 {
+			e = time.Unix(wallNow, 0).UTC().Add(time.Duration(1+g.rng.Intn(60)) * time.Second)
+		}
 		t.ExpirationTime = &e
 	}
 	if g.chance(8) {
@@ -907,7 +906,7 @@ func genPeeringWrite(g *fullGen) *built {
 	if g.chance(20) {
 		// same name, other id (an ID that is in use under another name makes the FSM dereference a nil
 		// peering in its error message -- see the final report; the generator stays clear of it)
-		p.ID = "cccc3333-0000-0000-0000-000000000003"
+		p.ID = "cccc3333-0000-0000-0000-00000000000" + map[string]string{"peer-a": "a", "peer-b": "b"}[name]
 	}
 	req := &pbpeering.PeeringWriteRequest{Peering: p}
 	if g.chance(3) && p.ID != "" {
@@ -1106,8 +1105,6 @@ func (g *fullGen) chunked(b *built, data []byte) []Entry {
 	es[len(es)-1].Type = int(data[0])
 	return es
 }
-
-var _ = acl.EnterpriseMeta{}
 
 // ---------------------------------------------------------------- scripted histories (run first)
 
